@@ -38,10 +38,12 @@ ASSUMPTIONS = ["validator activations are the points at which validation can fai
                "the audit hook sees every open() made through Python; the strace sample covers what it cannot"]
 REQUIRED_REACH = ["common.MetadataBase.dump", "treeinfo.TreeInfo.dump", "common.open_file_obj"]
 REQUIRED_MONITORS = ["destination-bytes-unchanged", "no-write-open-in-failing-dump", "no-stray-files", "real-invalid-value"]
+CLASS_FLOORS_EXTRA = {"previous-file-over-1MiB": 10, "dest-name-tmp-suffix": 50}
 CLASS_FLOORS = {"preexisting": 50, "absent": 50, "fault-in-nested-writer": 50, "fault-in-top-level-validate": 5, "treeinfo-main-variant": 5,
                 "real-invalid-value": 30}
 for _f in formats.FORMATS:
     CLASS_FLOORS["fmt-" + _f] = 10
+CLASS_FLOORS.update(CLASS_FLOORS_EXTRA)
 
 
 def plan(tier):
@@ -50,6 +52,10 @@ def plan(tier):
                 "timeout_s": 3600}
     return {"shards": 4, "params": {"objects": 42, "values": 200, "strace_cases": 8, "budget_s": 300, "audit": True, "vtrace": True},
             "timeout_s": 900}
+
+
+DEST_NAMES = ["dest", "dest", "metadata.json.tmp", "dest", ".treeinfo.tmp", "dest.json", "dest", "rpms.json.new", "x.tmp"]
+PADDINGS = [0] * 14 + [1024 ** 2 + 17, 0, 0, 0, 0, 0, 0, 0, 0, 0, 0, 0, 0, 0, 0, 4 * 1024 ** 2 + 1]
 
 
 def do_dump(obj, fmt, path, main_variant):
@@ -66,9 +72,22 @@ def listing(d):
 def failing_dump(ctx, obj, fmt, case, workdir, good_bytes, preexisting, main_variant, arm, disarm, monitor_prefix=""):
     """Runs one dump that is expected to fail; checks the destination afterwards.
     arm()/disarm() switch the fault on/off.  Returns 'failed' | 'succeeded'."""
-    dest = os.path.join(workdir, "dest")
+    # the destination's NAME and the SIZE of what it holds are the caller's business
+    ctx._c18_n = getattr(ctx, "_c18_n", 0) + 1
+    dest_name = case.get("dest_name") or DEST_NAMES[ctx._c18_n % len(DEST_NAMES)]
+    case["dest_name"] = dest_name
+    dest = os.path.join(workdir, dest_name)
     for name in os.listdir(workdir):
         os.unlink(os.path.join(workdir, name))
+    pad = case.get("previous_padding")
+    if pad is None:
+        pad = PADDINGS[(ctx._c18_n // 3) % len(PADDINGS)] if preexisting else 0
+        case["previous_padding"] = pad
+    if pad:
+        good_bytes = good_bytes + b"\n" + (b"# an earlier, larger state of this file ...............................\n" * (pad // 70 + 1))
+        ctx.count("previous-file-over-1MiB")
+    if dest_name != "dest":
+        ctx.count("dest-name-" + ("tmp-suffix" if dest_name.endswith(".tmp") else "other"))
     if preexisting:
         # the good copy is a plain file, or shared with an older compose: reached through a symbolic link / a second hard link
         kind = case.get("dest_kind")
@@ -123,7 +142,7 @@ def failing_dump(ctx, obj, fmt, case, workdir, good_bytes, preexisting, main_var
         ctx.violation("destination-bytes-unchanged", "after a dump that raised, the destination is byte for byte what it was (and absent if it was absent)",
                       case, observed=probs + ["%s: %s" % (type(exc).__name__, str(exc)[:120])], expected="untouched",
                       key="dump-opens-destination-before-serialising")
-    stray = [n for n in listing(workdir) if n not in before_list and n != "dest"]
+    stray = [n for n in listing(workdir) if n not in before_list and n != dest_name]
     ctx.monitor("no-stray-files", fired=bool(stray))
     if stray:
         ctx.violation("no-stray-files", "a failed dump leaves no stray files next to the destination", case, observed=stray, expected=[])
